@@ -25,6 +25,9 @@ def handle (st : St) (line : String) : St × Option String :=
   | ["l", "burst", k, n] =>
     let (s', ex, eof) := burst st (k.toNat?.getD 0) (n.toNat?.getD 0)
     (s', some s!"obs executing={ex} eof={if eof then 1 else 0} errors=0")
+  | ["l", "fails", k, n] =>
+    let (s', ex, eof) := failing st (k.toNat?.getD 0) (n.toNat?.getD 0)
+    (s', some s!"obs executing={ex} eof={if eof then 1 else 0} errors={n.toNat?.getD 0}")
   | ["l", "release"] =>
     let (s', n) := release st
     (s', some s!"obs acks={n}")
